@@ -1003,6 +1003,30 @@ let run_pc_hyrax c =
       let pts = Array.init npts (fun j -> fs_of c (Printf.sprintf "pt.%d" j)) in
       let nops = int1 c "nops" in
       let recs = Array.make nops None in
+      let brecs = Array.make nops None in
+      let lab i = nlabel (int1 c (Printf.sprintf "label.%d" i)) in
+      let cmpz a b = Z.compare (ofz a) (ofz b) in
+      let rec cmpl a b = match a, b with [], [] -> 0 | [], _ -> -1 | _, [] -> 1 | x :: a', y :: b' -> let r = cmpz x y in if r <> 0 then r else cmpl a' b' in
+      (* the query set and the evaluations as the BTreeSet / BTreeMap list them; optional point replacement, value deltas by
+         position in the map, one evaluation dropped *)
+      let hy_qs_ev tr3 newpt deltas drop =
+        let usept pj = match newpt with Some (o, nw) when o = pj -> nw | _ -> pj in
+        let qs = List.sort_uniq (fun (l1, (p1, z1)) (l2, (p2, z2)) ->
+            let r = Z.compare l1 l2 in if r <> 0 then r else let r = Z.compare p1 p2 in if r <> 0 then r else cmpl z1 z2)
+            (List.map (fun (i, zl, pj) -> (lab i, (nlabel zl, pts.(usept pj)))) tr3) in
+        let tbl = Hashtbl.create 16 in
+        List.iter (fun (i, _, pj) -> Hashtbl.replace tbl (Z.to_string (lab i) ^ "@" ^ String.concat "," (fs_to pts.(usept pj)))
+                      ((lab i, pts.(usept pj)), MLPC.mle_eval fo polys.(i) pts.(pj))) tr3;
+        let ev = Hashtbl.fold (fun _ v acc -> v :: acc) tbl [] in
+        let evm = List.sort (fun ((l1, z1), _) ((l2, z2), _) -> let r = Z.compare l1 l2 in if r <> 0 then r else cmpl z1 z2) ev in
+        let evm = List.mapi (fun idx (kx, v) -> (kx, List.fold_left (fun acc (kk, d) -> if kk = idx then fo.Field.fadd acc d else acc) v deltas)) evm in
+        let evm = match drop with Some kk -> List.filteri (fun idx _ -> idx <> kk) evm | None -> evm in
+        (qs, evm) in
+      let hy_open sts z (ch, ot) = match Hyrax.h_open_list fo keylen z sts ot ch with
+        | Result.Ok ((pfs, ot'), ch') -> Result.Ok (pfs, (ch', ot')) | Result.Err e -> Result.Err e | Result.Panic -> Result.Panic in
+      let hy_check rowsl z vs pfs (ch, ot) = match Hyrax.h_check_list fo keylen z rowsl vs pfs ch with
+        | Result.Ok (b, ch') -> Result.Ok (b, (ch', ot)) | Result.Err e -> Result.Err e | Result.Panic -> Result.Panic in
+      let hy_decision r = decision (match r with Result.Ok (b, _) -> Result.Ok b | Result.Err e -> Result.Err e | Result.Panic -> Result.Panic) in
       let check_all rowsl point values pfs chal =
         (* the verifier's loop: refusals on shape, then one challenge per triple, stopping at the first failing equation *)
         if List.length point mod 2 = 1 then Result.Err Result.EInvalidNumberOfVariables
@@ -1056,6 +1080,32 @@ let run_pc_hyrax c =
             obs1 (k "check") "S" (decision (check_all (List.map (fun i -> fst cs.(i)) sel) z values !pfs vchal));
             recs.(t) <- Some (pj, sel, values, !pfs)
           end
+        | [ "batch"; sq ] ->
+          let chal = fs_of c (k "chal") and vchal = fs_of c (k "vchal") in
+          let tr3 = triples3 (get c ("qs." ^ sq)) in
+          let ident = List.init n (fun i -> i) in
+          let pperm = if has c (k "pperm") then List.map int_of_string (get c (k "pperm")) else ident in
+          let vperm = if has c (k "vperm") then List.map int_of_string (get c (k "vperm")) else ident in
+          let otape = if has c (k "otape") then fs_of c (k "otape") else [] in
+          let (qs, evm) = hy_qs_ev tr3 None [] None in
+          obs (k "evals") "F" (fs_to (List.map snd evm));
+          let items = List.map (fun i -> (lab i, snd cs.(i))) pperm in
+          let r = DefaultBatch.default_batch_open fo hy_open items qs (chal, otape) in
+          obs1 (k "open") "S" (class_of r);
+          (match r with
+           | Result.Ok (pfl, _) ->
+             obs1 (k "nproofs") "N" (string_of_int (List.length pfl));
+             List.iteri (fun g pfs ->
+                 obs1 (Printf.sprintf "pf.%d.%d.n" t g) "N" (string_of_int (List.length pfs));
+                 obs1 (Printf.sprintf "pf.%d.%d.fresh_masks" t g) "S" "yes";
+                 List.iteri (fun j pf ->
+                     obs (Printf.sprintf "pf.%d.%d.%d.coms" t g j) "L:basis" [ gel_tok pf.Hyrax.hp_com_eval; gel_tok pf.Hyrax.hp_com_d; gel_tok pf.Hyrax.hp_com_b ];
+                     obs (Printf.sprintf "pf.%d.%d.%d.z" t g j) "F" (fs_to pf.Hyrax.hp_z);
+                     obs (Printf.sprintf "pf.%d.%d.%d.s" t g j) "F" [ f_to_str pf.Hyrax.hp_zd; f_to_str pf.Hyrax.hp_zb; f_to_str pf.Hyrax.hp_reval ]) pfs) pfl;
+             let cml = List.map (fun i -> (lab i, fst cs.(i))) vperm in
+             obs1 (k "check") "S" (hy_decision (DefaultBatch.default_batch_check fo hy_check cml qs evm pfl (vchal, [])));
+             brecs.(t) <- Some (tr3, pfl, vperm)
+           | _ -> ())
         | _ -> ()
       done;
       List.iter (fun (m, mv) ->
@@ -1101,7 +1151,48 @@ let run_pc_hyrax c =
                | _ -> ok := false);
               if !ok then
                 obs1 name "S" (decision (check_all (List.map (fun i -> rowsa.(i)) !sel) pts.(!pj) !values !pfs mchal))
-            | None -> ()
+            | None ->
+              (match brecs.(t) with
+               | Some (tr3, pfl, vperm) ->
+                 let tr3 = ref tr3 and pfl = ref pfl and vperm = ref vperm and ok = ref true in
+                 let deltas = ref [] and drop = ref None in
+                 let nth_opt l i = if i < List.length l then Some (List.nth l i) else None in
+                 (match kind with
+                  | "value" -> deltas := [ (int_of_string (arg 0), f_of_str (arg 1)) ]
+                  | "cancel" -> let d = f_of_str (arg 2) in
+                    deltas := [ (int_of_string (arg 0), d); (int_of_string (arg 1), fo.Field.fopp d) ]
+                  | "comm_swap" -> let i = int_of_string (arg 0) and j = int_of_string (arg 1) in rowsa.(i) <- fst cs.(j)
+                  | "proofs" ->
+                    let a () = int_of_string (arg 1) and b () = int_of_string (arg 2) in
+                    let len = List.length !pfl in
+                    (match arg 0 with
+                     | "perm" -> if a () < len && b () < len then begin
+                         let x = List.nth !pfl (a ()) and y = List.nth !pfl (b ()) in
+                         pfl := List.mapi (fun i p -> if i = a () then y else if i = b () then x else p) !pfl end else ok := false
+                     | "trunc" -> if a () < len then pfl := List.filteri (fun i _ -> i < a ()) !pfl else ok := false
+                     | "dup" -> if a () < len && b () < len then begin
+                         let x = List.nth !pfl (a ()) in pfl := List.mapi (fun i p -> if i = b () then x else p) !pfl end else ok := false
+                     | "empty" -> pfl := []
+                     | "extend" -> (match nth_opt !pfl (len - 1) with Some l when len > 0 -> pfl := !pfl @ [ l ] | _ -> ok := false)
+                     | _ -> ok := false)
+                  | "sponge_pre" -> ()
+                  | "vperm" -> vperm := List.map int_of_string args
+                  | "drop_query" -> let kk = int_of_string (arg 0) in
+                    if kk < List.length !tr3 then tr3 := List.filteri (fun i _ -> i <> kk) !tr3 else ok := false
+                  | "drop_eval" -> drop := Some (int_of_string (arg 0))
+                  | "drop_comm" -> let i = int_of_string (arg 0) in vperm := List.filter (fun x -> x <> i) !vperm
+                  | _ -> ok := false);
+                 if !ok then begin
+                   let (qs, evm0) = hy_qs_ev !tr3 None [] None in
+                   let nk = List.length evm0 in
+                   if List.exists (fun (kk, _) -> kk >= nk) !deltas || (match !drop with Some kk -> kk >= nk | None -> false) then ()
+                   else begin
+                     let (_, evm) = hy_qs_ev !tr3 None !deltas !drop in
+                     let cml = List.map (fun i -> (lab i, rowsa.(i))) !vperm in
+                     obs1 name "S" (hy_decision (DefaultBatch.default_batch_check fo hy_check cml qs evm !pfl (mchal, [])))
+                   end
+                 end
+               | None -> ())
           end)
         (indexed c "mut")
     end
